@@ -4,6 +4,9 @@ import Proofs.C08Inv
 import Proofs.C08Step
 import Proofs.C08Seq
 import Proofs.C08Exhaust
+import Proofs.C08SeqSpec
+import Proofs.C08Any
+import Proofs.C08Calm
 /-!
 # C08 — stream ids are unique while in use, never 0 or out of range, and all get used
 
@@ -90,13 +93,6 @@ theorem C08_unique (n k : Nat) (hn : 0 < n) (s : State) (h : Reachable n k s) :
         rw [← h1]; simp only [h2]
     · cases hs
 
-def isG7 : PC → Bool
-  | .g7 _ => true
-  | _ => false
-def isC11 : PC → Bool
-  | .c11 => true
-  | _ => false
-
 theorem countP_split (l : List PC) :
     l.countP isOwner + l.countP isC11 = l.countP inClear + l.countP isG7 := by
   induction l with
@@ -154,11 +150,6 @@ structure SeqInv (n : Nat) (sh : Shared) (held : List Nat) : Prop where
   reserved : bitAt sh.words 0 = true
   count : countBelow (bitAt sh.words) (64 * n) = 1 + held.length
   inuse : sh.inuse = held.length
-
-theorem countBelow_all {p : Nat → Bool} (k : Nat) (h : ∀ x, x < k → p x = true) : countBelow p k = k := by
-  induction k with
-  | zero => rfl
-  | succ k ih => simp [countBelow, ih (fun x hx => h x (by omega)), h k (by omega)]
 
 theorem seqInv_get {n : Nat} (hn : 0 < n) {sh : Shared} {held : List Nat} (hI : SeqInv n sh held) :
     (held.length < 64 * n - 1 → ∃ id, (getStream sh).2 = some (.stream id true) ∧ 1 ≤ id ∧ id < 64 * n ∧
@@ -327,11 +318,202 @@ theorem C08_cex_available_transient :
     (run (initState 2 2) cexAvailable).map (fun s => (s.held.length, available s.sh)) = some (127, -1) := by
   decide
 
+/-! ## WITHOUT the client protocol
+
+`runAny ok` runs a schedule in which every thread may call `GetStream`, `Available` and `Clear(id)` of
+ANY id at ANY time (double / stale / racing releases of one id, ids that were never handed out, the
+reserved id 0, ids beyond the capacity); `ok` restricts the actions (`anyAct`: no restriction).
+Events: `got id` = a `GetStream` call returned `id, true`; `released id` = a `Clear(id)` call that
+flipped the bit of `id` from 1 to 0 returned (`true`, or the 'negative streams inuse' panic). -/
+
+theorem runAny_length (ok : State → Action → Bool) (as : List Action) :
+    ∀ (s : State) (evs : List Ev) (s' : State) (evs' : List Ev), runAny ok s evs as = some (s', evs') →
+      s'.sh.words.length = s.sh.words.length := by
+  induction as with
+  | nil =>
+    intro s evs s' evs' h
+    simp only [runAny, Option.some.injEq, Prod.mk.injEq] at h
+    rw [h.1]
+  | cons a as ih =>
+    intro s evs s' evs' h
+    simp only [runAny] at h
+    split at h
+    · split at h
+      · rename_i s1 r hs
+        rw [ih s1 _ s' evs' h, (step_length hs).1]
+      · cases h
+    · cases h
+
+/-- ∀ schedule, NO protocol, no exclusion: `inuse + #(GetStream between CAS and add) − #(Clear between
+    CAS and add) = popcount − 1`; when no call is in progress `Available()` is exactly the number of
+    zero bits of the bitset. -/
+theorem C08_count_any (n k : Nat) (hn : 0 < n) (as : List Action) (s : State) (evs : List Ev)
+    (h : runAny anyAct (initState n k) [] as = some (s, evs)) :
+    s.sh.inuse + (s.threads.countP isG7 : Nat) - (s.threads.countP isC11 : Nat)
+        = (countBelow (bitAt s.sh.words) (64 * n) : Nat) - 1 ∧
+    ((∀ pc, pc ∈ s.threads → pc = .idle) →
+        available s.sh = ((64 * n : Nat) : Int) - (countBelow (bitAt s.sh.words) (64 * n) : Nat)) := by
+  have hlen : s.sh.words.length = n := by
+    rw [runAny_length anyAct as _ _ _ _ h]; simp [initState, length_init]
+  have hA := invA_runAny anyAct as _ _ _ _ (invN_init n k hn).1.a h
+  have hc := hA.count
+  rw [hlen] at hc
+  refine ⟨by omega, fun hq => ?_⟩
+  rw [countP_idle (f := isG7) rfl hq, countP_idle (f := isC11) rfl hq] at hc
+  simp only [available, hlen]
+  omega
+
+/-- ∀ schedule, NO protocol, no exclusion, from ANY state without calls in progress (fresh or pre-filled):
+    for every id `x`
+      #(`Clear(x)` calls that returned true) + #(`Clear(x)` between CAS and add) + [bit x]
+        = #(`GetStream` calls that returned x) + #(`GetStream` calls that have set bit x and are about to
+          return x) + [bit x initially];
+    hence the successful releases of `x` never exceed its acquisitions (+1 if `x` was in use initially):
+    of several racing `Clear(x)` at most one per acquisition returns true (double release reports false),
+    and when no call is in progress the equation holds without the in-progress terms. -/
+theorem C08_release_conservation (s0 : State) (hn : 0 < s0.sh.words.length)
+    (hidle : ∀ pc, pc ∈ s0.threads → pc = .idle) (as : List Action) (s : State) (evs : List Ev)
+    (h : runAny anyAct s0 [] as = some (s, evs)) (x : Nat) :
+    evs.count (.released x) + s.threads.countP (c11x x) + b2n (bitAt s.sh.words x)
+      = evs.count (.got x) + s.threads.countP (g7x x) + b2n (bitAt s0.sh.words x) ∧
+    evs.count (.released x) ≤ evs.count (.got x) + s.threads.countP (g7x x) + b2n (bitAt s0.sh.words x) ∧
+    ((∀ pc, pc ∈ s.threads → pc = .idle) →
+      evs.count (.released x) + b2n (bitAt s.sh.words x) = evs.count (.got x) + b2n (bitAt s0.sh.words x)) := by
+  have hA := invA_runAny anyAct as _ _ _ _ (invA_start s0 hn hidle) h
+  have hc := hA.cons x
+  refine ⟨hc, by omega, fun hq => ?_⟩
+  rw [countP_idle (f := g7x x) (by simp [g7x]) hq, countP_idle (f := c11x x) (by simp [c11x]) hq] at hc
+  omega
+
+/-- `Clear` of an id whose bit is clear returns false and changes nothing (first load and every
+    re-load after a failed CAS); beyond the capacity it panics with an index error and changes nothing;
+    and the only steps of a `Clear` call that change the shared state are the successful CAS — whose
+    compare value has the bit set (`localA`) — and the decrement after it. -/
+theorem C08_clear_noop (sh : Shared) (id : Nat) :
+    (id / 64 < sh.words.length → bitAt sh.words id = false →
+        tstep sh (.c8 id) = (sh, .idle, some (.cleared false)) ∧
+        tstep sh (.c10 id) = (sh, .idle, some (.cleared false))) ∧
+    (¬ id / 64 < sh.words.length → tstep sh (.c8 id) = (sh, .idle, some .crashIndex)) ∧
+    (tstep sh (.c8 id)).1 = sh ∧ (tstep sh (.c10 id)).1 = sh ∧
+    (∀ b, sh.words.getD (bucketOffset id) 0 ≠ b → tstep sh (.c9 id b) = (sh, .c10 id, none)) := by
+  refine ⟨?_, ?_, ?_, ?_, ?_⟩
+  · intro hlt hb
+    have h' : bucketOffset id < sh.words.length := hlt
+    have hb' : (sh.words.getD (bucketOffset id) 0).getLsbD (streamOffset id) = false := hb
+    have hne : sh.words.getD (bucketOffset id) 0 &&& mask id ≠ mask id := (and_mask_ne_mask _ _).mpr hb'
+    constructor
+    · simp only [tstep, h', ↓reduceIte, if_pos hne]
+    · simp only [tstep, if_pos hne]
+  · intro hlt
+    have h' : ¬ bucketOffset id < sh.words.length := hlt
+    simp only [tstep, h', ↓reduceIte]
+  · simp only [tstep]
+    split
+    · split <;> rfl
+    · rfl
+  · simp only [tstep]
+    split <;> rfl
+  · intro b hb
+    simp only [tstep, hb, ↓reduceIte]
+
+/-- ∀ schedule, NO protocol, in which `Clear(0)` is not called: the bit of the reserved id stays set and
+    every id handed out is in `1..NumStreams-1`. -/
+theorem C08_reserved_and_range_any (n k : Nat) (hn : 0 < n) (as : List Action) (s : State) (evs : List Ev)
+    (h : runAny noClear0 (initState n k) [] as = some (s, evs)) :
+    bitAt s.sh.words 0 = true ∧ ∀ id, Ev.got id ∈ evs → 1 ≤ id ∧ id < 64 * n := by
+  have hN := invN_runAny noClear0 (fun _ _ h => h) as _ _ _ _ (invN_init n k hn).1 h
+  exact ⟨hN.b.reserved, hN.b.gotOk⟩
+
+/-! Full statement of "releasing is harmless / no call panics" without the protocol:
+  `∀ schedule (runAny anyAct), no step returns crashNegative, and 0 ≤ inuse`.
+It does NOT hold on the unchanged code, in two exactly delimited cases:
+  1. `Clear(0)` is called (`noClear0`): the reserved bit is cleared, the counter goes to −1
+     (`C08_cex_clear_reserved`);
+  2. the CAS of a `Clear(x)` succeeds while a `GetStream` call has set the bit of `x` again but has not
+     returned yet (`rogueCAS`; only a double / stale release racing the re-acquisition of the id does
+     that): the bit of an id that is being handed out is cleared, the counter is decremented before it
+     was incremented (`C08_cex_double_release_negative`).
+The `_partial` form excludes exactly these two kinds of actions (`calm`). -/
+
+/-- ∀ schedule, NO protocol, without the two excluded kinds of actions: the counter never goes negative
+    and no call panics with 'negative streams inuse'. -/
+theorem C08_no_negative_partial (n k : Nat) (hn : 0 < n) (as : List Action) (s : State) (evs : List Ev)
+    (h : runAny calm (initState n k) [] as = some (s, evs)) :
+    0 ≤ s.sh.inuse ∧
+    ∀ a s' r, calm s a = true → step s a = some (s', r) → r ≠ some .crashNegative := by
+  obtain ⟨hN, hC⟩ := invC_runAny as _ _ _ _ (invN_init n k hn).1 (invN_init n k hn).2 h
+  refine ⟨?_, fun a s' r hok hs => (invC_step hN hC hok hs).2⟩
+  have := inuse_ge hN.a (by rw [hN.len]; exact hN.b) hC
+  omega
+
+/-- the values returned by the actions of a schedule -/
+def retsOf : State → List Action → List (Option Ret)
+  | _, [] => []
+  | s, a :: as =>
+    match step s a with
+    | some (s', r) => r :: retsOf s' as
+    | none => []
+
+/-- 128-id generator, 3 goroutines. Goroutine 0 acquires ids 1 and 64 and releases 64 (id 1 in use,
+    counter 1). Goroutine 1 calls `Clear(1)` and loads the word (bit set). Goroutine 0 calls `Clear(1)`:
+    true, counter 0. Goroutine 2 calls `GetStream`; its CAS sets the bit of id 1 again; it is parked in
+    front of the increment. -/
+def cexDouble : List Action :=
+  oneGet 0 ++ oneGet 0 ++ [.start 0 (.clear 64), .step 0, .step 0]
+    ++ [.start 1 (.clear 1)]
+    ++ [.start 0 (.clear 1), .step 0, .step 0]
+    ++ [.start 2 .get, .step 2, .step 2, .step 2]
+
+set_option maxRecDepth 100000 in
+/-- … now the CAS of goroutine 1 (the double release) succeeds on the same word value (excluded case 2),
+    its decrement panics with 'negative streams inuse'; goroutine 2 then returns id 1 although the bit
+    of id 1 is clear and `Available()` = 127 = NumStreams − 1. -/
+theorem C08_cex_double_release_negative :
+    (runAny anyAct (initState 2 3) [] cexDouble).map (fun p => rogueCAS p.1 (.step 1)) = some true ∧
+    (retsOf (initState 2 3) (cexDouble ++ [.step 1, .step 1, .step 2])).drop cexDouble.length
+      = [none, some .crashNegative, some (.stream 1 true)] ∧
+    (runAny anyAct (initState 2 3) [] (cexDouble ++ [.step 1, .step 1, .step 2])).map
+      (fun p => (bitAt p.1.sh.words 1, available p.1.sh)) = some (false, 127) := by
+  decide
+
+/-- excluded case 1, sequentially: `Clear(0)` on a fresh 128-id generator clears the reserved bit and
+    panics (counter −1, `Available()` = 128); the next `GetStream` hands out id 0. -/
+theorem C08_cex_clear_reserved :
+    seqTrace (init 2) [.clear 0, .get] =
+      [(.clear 0, some .crashNegative, 128), (.get, some (.stream 0 true), 127)] := by
+  decide
+
+/-! ### sequential use, all op sequences -/
+
+/-- sequential use, ALL sequences of `GetStream` / `Clear(id)` (any id ≠ 0: held, free, released twice,
+    beyond the capacity) / `Available`, both capacities: every answer is allowed by the abstract id-set
+    specification `specStep` — an id handed out is in `1..NumStreams-1` and was free; `GetStream` fails
+    only when all `NumStreams-1` ids are handed out; `Clear` returns whether the id was handed out (index
+    panic beyond the capacity, nothing changes) — and after EVERY op `Available()` = `NumStreams-1-#handed
+    out`. (`seqMon` is the fused form the driver runs.) -/
+theorem C08_sequential_spec (n : Nat) (hn : 0 < n) (ops : List Op) (hops : ∀ op, op ∈ ops → op ≠ .clear 0) :
+    specCheck (64 * n) (specInit (64 * n)) (seqTrace (init n) ops) = true ∧
+    seqMon (64 * n) (init n) (specInit (64 * n)).tbl 0 ops = true := by
+  have h := specInv_run hn ops hops (init n) (specInit (64 * n)).tbl 0 (specInv_init n hn)
+  exact ⟨h, by rw [seqMon_eq]; exact h⟩
+
 /-! ### non-vacuity -/
 
 /-- the hypothesis of `C08_no_false_exhaustion` is satisfiable: a full generator -/
 example : let full : Shared := { words := [allOnes, allOnes], inuse := 127, offset := 1 }
     (threadRun (startPC .get) [full, full, full, full]).2 = some (.stream 0 false) := by decide
+
+/-- `C08_sequential_spec` is not vacuous: the specification rejects a false exhaustion and a wrong
+    `Clear` result -/
+example : specCheck 8 (specInit 8) [(.get, some (.stream 0 false), 7)] = false ∧
+    specCheck 8 (specInit 8) [(.clear 5, some (.cleared true), 7)] = false ∧
+    specCheck 8 (specInit 8) [(.get, some (.stream 3 true), 6), (.get, some (.stream 3 true), 5)] = false ∧
+    specCheck 8 (specInit 8) [(.get, some (.stream 3 true), 6), (.clear 3, some (.cleared true), 7),
+      (.clear 3, some (.cleared false), 7)] = true := by decide
+
+/-- the schedules of `C08_no_negative_partial` include racing double releases: two goroutines `Clear(1)` -/
+example : (runAny calm (initState 2 2) [] (oneGet 0 ++ [.start 0 (.clear 1), .start 1 (.clear 1), .step 0, .step 1,
+    .step 0, .step 1])).isSome = true := by decide
 
 /-- the machine runs: two threads race for ids on the 128-id generator -/
 example : (run (initState 2 2) [.start 0 .get, .start 1 .get, .step 0, .step 1, .step 1, .step 1, .step 0]).isSome = true := by
